@@ -4,4 +4,5 @@ pub mod hist;
 pub mod mondir;
 pub mod report;
 pub mod rng;
+pub mod sched;
 pub mod systwin;
